@@ -1,6 +1,7 @@
 import GoguVerif.Go.Run
 import GoguVerif.Kinds.Common
 import GoguVerif.Spec.C10
+import GoguVerif.Model.BTree
 /-! Driver wiring for C10: spec monitor (+ model correspondence). -/
 namespace GoguVerif.Kinds
 open GoguVerif
@@ -30,6 +31,21 @@ def renderOut : Out → List Val
 structure MSt where
   s : St := {}
   maxHeight : Int := 0
+  /-- the model tree; `none` once the model has panicked -/
+  t : Option Model.BTree.Tree := some Model.BTree.Tree.new
+
+/-- The model's answer, rendered.  `Height` is NOT compared (it is judged by the monitor against the
+bound only, so that another valid split policy does not break the correspondence). -/
+def modelStep (t : Option Model.BTree.Tree) (op : Op) : Option Model.BTree.Tree × Option (List Val) :=
+  match t with
+  | none => (none, none)
+  | some t =>
+    match Model.BTree.step t op with
+    | .panic => (none, some [.atom "panic"])
+    | .ok (t', o) =>
+      match op with
+      | .height => (some t', none)
+      | _ => (some t', some (renderOut o))
 
 def kind : Kind where
   σ := MSt
@@ -39,17 +55,19 @@ def kind : Kind where
     | none => { st := st, bad := some s!"bad btree op {l.op}" }
     | some op =>
       let (s', so) := Spec.C10.step st.s op
+      let (t', mo) := modelStep st.t op
+      let st : MSt := { st with t := t' }
       match failRes l.res with
-      | some c => { st := { st with s := s' }, tags := [l.op], spec := some s!"{c}:{l.op}" }
+      | some c => { st := { st with s := s' }, model := mo, tags := [l.op], spec := some s!"{c}:{l.op}" }
       | none =>
       match so with
       | some o =>
-        { st := { st with s := s' }, tags := [l.op], nontrivial := st.maxHeight ≥ 1 && s'.m.length < s'.ever.length
+        { st := { st with s := s' }, model := mo, tags := [l.op], nontrivial := st.maxHeight ≥ 1 && s'.m.length < s'.ever.length
           spec := if renderOut o == l.res then none else some s!"ordered-map:{l.op}" }
       | none =>
         match l.res with
         | [.int h] =>
-          { st := { s := s', maxHeight := max st.maxHeight h }, tags := [l.op]
+          { st := { st with s := s', maxHeight := max st.maxHeight h }, tags := [l.op]
             spec := if decide (HeightOk st.s h) then none else some "height-bound" }
         | _ => { st := st, tags := [l.op], spec := some "height-bound" }
 
